@@ -307,7 +307,13 @@ def maybe_replace_function_args(new_node, cur_ast_node, cst_idx, cst_list):
         )
         arg_start_idx: int = cst_list[cst_idx].value.find("(", function_name_starts_at)
         func_end: int = cst_list[cst_idx].value.rfind(":")
-        return_type: Optional[int] = cst_list[cst_idx].value.rfind("->", None, func_end)
+        # The header has a return arrow iff the (already written back) new node has a return annotation;
+        # a "->" inside a default value, e.g. `sep='->'`, is not one
+        return_type: Optional[int] = (
+            -1
+            if new_node.returns is None
+            else cst_list[cst_idx].value.rfind("->", None, func_end)
+        )
         if return_type > -1:
             last_col = func_end
             func_end = return_type
